@@ -21,8 +21,8 @@ Archs == ndJsonDeserialize(ArchFile)
 ArchOf(aid) == (CHOOSE i \in 1..Len(Archs) : Archs[i].aid = aid)
 
 (* Region of a cut at file offset k *)
-HdrEnd(a)     == DataBase(a) + HeaderLen(a.roots)
-SecEnd(a, j)  == DataBase(a) + (IF j = 0 THEN HeaderLen(a.roots) ELSE SecOffset(a.roots, a.secs, j) + SectionLen(a.secs[j]))
+HdrEnd(a)     == DataBase(a) + HLen(a)
+SecEnd(a, j)  == DataBase(a) + (IF j = 0 THEN HLen(a) ELSE Shift(a) + SecOffset(a.roots, a.secs, j) + SectionLen(a.secs[j]))
 (* number of complete sections in the first k bytes *)
 Complete(a, k) == Cardinality({ j \in 1..Len(a.secs) : SecEnd(a, j) <= k })
 OnBoundary(a, k) == \E j \in 0..Len(a.secs) : SecEnd(a, j) = k
